@@ -164,9 +164,67 @@ func c05Case(c *Ctx) *Result {
 			cur = nil
 		}
 	}
-	// life of the probe plus 130 virtual seconds
-	time.Sleep(130 * time.Second)
 	wg.Wait()
+	// Phase 2: bit-flipped copies (any position, padding included) of the
+	// genuine user's first segment, which the server HAS processed, after the
+	// genuine session ended and was cleaned up. They carry no new credential
+	// proof either and must draw nothing.
+	var first []byte
+	if udp {
+		for _, ev := range env.Hub() {
+			if ev.Kind == "send" && ev.D.To == env.Cfg.serverAddr().String() && !proberAddrs[ev.D.From] {
+				first = ev.D.Data
+				break
+			}
+		}
+	} else {
+		taps := env.Taps()
+		for id, t := range taps {
+			_ = id
+			if len(t[0]) > 0 {
+				pr := env.Net.Pairs()
+				for _, p := range pr {
+					if p.ID == id && !proberAddrs[p.Client.LocalAddr().String()] {
+						first = t[0][0].Data
+					}
+				}
+			}
+		}
+	}
+	cm.Close()
+	time.Sleep(7 * time.Second)
+	if bm, err := env.NewClient(1, "10.0.2.2"); err == nil {
+		p2 := &SessPlan{Idx: 0, W: [2][]int{{300}, {300}}, R: [2][]int{{4096}, {4096}}, Key: [2]uint64{key2(c.Seed, c.Idx, 7, 0, 5), key2(c.Seed, c.Idx, 7, 1, 5)}}
+		runTransfer(env, bm, []*SessPlan{p2}, XferOpt{Watchdog: 120 * time.Second})
+		bm.Close()
+	}
+	time.Sleep(6 * time.Second)
+	nflip := 0
+	if len(first) > 0 {
+		for k := 0; k < 6; k++ {
+			cp := append([]byte(nil), first...)
+			bit := r.Intn(len(cp) * 8)
+			if k%2 == 0 && len(cp) > 80 {
+				bit = (len(cp)-1-r.Intn(min(8, len(cp)-73)))*8 + r.Intn(8) // near the end: padding if there is any
+			}
+			cp[bit/8] ^= 1 << uint(bit%8)
+			nflip++
+			if udp {
+				pconn.WriteTo(cp, env.Cfg.serverAddr())
+			} else {
+				cc, err := ep.DialContext(context.Background(), "tcp", env.Cfg.serverAddr().String())
+				if err != nil {
+					break
+				}
+				proberAddrs[cc.LocalAddr().String()] = true
+				cc.Write(cp)
+			}
+			time.Sleep(time.Duration(100+r.Intn(400)) * time.Millisecond)
+		}
+	}
+	res.Obs["probe_flip-of-delivered"] = float64(nflip)
+	// life of the probes plus 130 virtual seconds
+	time.Sleep(130 * time.Second)
 	// accepted sessions and session list entries attributable to the prober
 	sessFromProber := 0
 	for _, it := range env.Srv.ExportSessionInfoList().GetItems() {
